@@ -594,5 +594,54 @@ func runC18(c *Ctx) {
 			ctempCase(c, id("c"), fk, seedOf(), Pick(r, []int{4, 8}), Pick(r, []int{4, 8}), rv, kind)
 		}
 	}
+	runC18BelowFile(c)
 	c.Extra["c18_streams"] = "grid (4 stacks x file/dir x 0..12 colliding pre-existing candidates as files/dirs/mixed); directories x patterns x 1..20 sequential callers; seed 0; random; hostile (separator in pattern, directory is a regular file); concurrent goroutines on MemMapFs and OsFs with and without rival exclusive creators"
+}
+
+// The requested directory does not exist and lies BELOW a regular file, one or several levels
+// down ("/data/report.txt/tmp"): nothing can be created there; the call fails and the file stays
+// the file it was (oracle only; MemMapFs, and a union whose overlay is a MemMapFs)
+func runC18BelowFile(c *Ctx) {
+	n := 0
+	for _, mkfs := range []func() afero.Fs{
+		func() afero.Fs { return afero.NewMemMapFs() },
+		func() afero.Fs { return afero.NewCopyOnWriteFs(afero.NewMemMapFs(), afero.NewMemMapFs()) },
+		func() afero.Fs { return afero.NewBasePathFs(afero.NewMemMapFs(), "/jail") },
+	} {
+		for _, dir := range []string{"/data/report.txt/tmp", "/data/report.txt/a/b", "/data/report.txt/a/b/c/d", "/data/report.txt/./x", "/data/report.txt//y/"} {
+			for _, kind := range []string{"file", "dir"} {
+				fs := mkfs()
+				fs.MkdirAll("/data", 0o755)
+				afero.WriteFile(fs, "/data/report.txt", []byte("figures"), 0o644)
+				n++
+				c.Count("belowfile." + kind)
+				var err error
+				var name string
+				func() {
+					defer func() {
+						if r := recover(); r != nil {
+							err = fmt.Errorf("panic: %v", r)
+						}
+					}()
+					if kind == "file" {
+						var f afero.File
+						if f, err = afero.TempFile(fs, dir, "t*"); err == nil {
+							name = f.Name()
+							f.Close()
+						}
+					} else {
+						name, err = afero.TempDir(fs, dir, "t")
+					}
+				}()
+				fi, serr := fs.Stat("/data/report.txt")
+				b, rerr := afero.ReadFile(fs, "/data/report.txt")
+				if serr != nil || fi.IsDir() || rerr != nil || string(b) != "figures" {
+					c.Oracle("FAIL bf%d temp:altered-existing:dir-below-file Temp%s(%q) (result %q, %v): /data/report.txt is no longer the file it was (Stat dir=%v err=%v; ReadFile %q, %v)", n, kind, dir, name, err, fi != nil && fi.IsDir(), serr, b, rerr)
+				} else if err == nil {
+					c.Oracle("FAIL bf%d temp:created-below-file Temp%s(%q) returned %q, no error, although %q lies below a regular file", n, kind, dir, name, dir)
+				}
+			}
+		}
+	}
+	c.Extra["below_file"] = fmt.Sprintf("%d TempFile/TempDir calls whose directory is missing and lies 1-4 levels below a regular file (oracle only)", n)
 }
